@@ -634,9 +634,21 @@ func c05Gen(tier string, emit func(c05Case)) {
 	}
 }
 
+var c05WithDebug = true
+
 func c05Verdict(c *Ctx, text string) (string, CallRes) {
 	r := ValidateCompiled(c05Query, text)
 	c.Eval(1)
+	if !c05WithDebug {
+		if r.Err != nil || r.Panic != nil {
+			return "", r
+		}
+		rep, err := ParseReport(r.Report)
+		if err != nil {
+			return "", CallRes{Err: err}
+		}
+		return rep.Verdict(), r
+	}
 	// the debug flag of the entry point must not change anything
 	rd := protect(func() (string, error) {
 		return pkg.ValidateCompiledWithConfiguration(c05Query, text, true, nil, Epoch2000, DefaultReportConf())
@@ -692,7 +704,9 @@ func c05Run(c *Ctx, cs c05Case) {
 		if err != nil || nq != baseNQ {
 			panic(fmt.Sprintf("harness: rewrite sequence %v does not preserve the RDF dataset (err=%v)\n%s", trace, err, tailStr(text, 1500)))
 		}
+		c05WithDebug = len(trace) <= 1 || c.Tier == "thorough" // debug=true twin for the base and every single rewrite (thorough: everywhere)
 		v, r := c05Verdict(c, text)
+		c05WithDebug = true
 		rc := c05Case{Graph: cs.Graph, Depth: len(trace), Part: 0, Parts: 1, Trace: trace}
 		if r.Panic != nil {
 			c.Violate("C05 panic on an equivalent serialisation at "+r.Panic.Sig(), fmt.Sprintf("rewrites %v\n%s", trace, tailStr(text, 1500)), rc)
